@@ -142,7 +142,7 @@ class Report:
         c["known_findings_hit"] = self.known_hits
         if not c["samples"]:
             c["samples"] = ["(none)"]
-        if self.level != "model_checking":
+        if self.level != "model_checking" or not c["states"] or not c["transitions"]:
             for k in ("states", "transitions", "traces_validated_against_impl"):
                 if not c[k]:
                     del c[k]
